@@ -198,8 +198,6 @@ func (s *strConvAccErr) ParseQuery(key, val string) *Query {
 		case 2:
 			q.parts[kv[0]] = append(q.parts[kv[0]], kv[1])
 			parts = append(parts, fmt.Sprintf("%s=%s", kv[0], kv[1]))
-		case 1:
-			parts = append(parts, fmt.Sprintf("%s=%s", kv[0], kv[1]))
 		default:
 			s.err = fmt.Errorf("key=%s, err=%s", key, "invalid query pair")
 		}
